@@ -649,8 +649,10 @@ with PolarsImpl.impl_store.impl_manager as impl:
 
     @impl(ops.shift)
     def _shift(x, n, fill_value=None):
-        if fill_value is None or (isinstance(fill_value, pl.Expr) and fill_value.meta.eq(pl.lit(None))):
-            # no fill value (polars has no `shift_and_fill` for a column of the Null dtype)
+        if fill_value is None or (
+            isinstance(fill_value, pl.Expr) and not fill_value.meta.root_names() and pl.select(fill_value).item() is None
+        ):
+            # no fill value: a (possibly typed) null literal (polars has no `shift_and_fill` for a column of the Null dtype)
             return x.shift(n)
         return x.shift(n, fill_value=fill_value)
 
